@@ -1,0 +1,23 @@
+//go:build verif
+
+package codegen
+
+// VerifEncodeTable exposes the row-compressed table codec (table.AddRow /
+// table.Array) to the verification harness in /verif. It is compiled only
+// with the "verif" build tag.
+func VerifEncodeTable(indices []int, rows [][]int32) []int32 {
+	t := newTable[int32]()
+	for i, row := range rows {
+		t.AddRow(indices[i], row)
+	}
+	return t.Array()
+}
+
+// VerifEncodeTableU is VerifEncodeTable for the uint32 tables of the lexer.
+func VerifEncodeTableU(indices []int, rows [][]uint32) []uint32 {
+	t := newTable[uint32]()
+	for i, row := range rows {
+		t.AddRow(indices[i], row)
+	}
+	return t.Array()
+}
